@@ -64,6 +64,39 @@ func applyUnifiedDiff(diff string, root string, read func(string) ([]byte, error
 			if ol == 0 {
 				start = os1
 			}
+			// like git apply, tolerate a shifted position: look for the hunk's old lines near the stated line
+			{
+				var oldLines []string
+				for k := i + 1; k < len(lines) && !strings.HasPrefix(lines[k], "@@") && !strings.HasPrefix(lines[k], "diff ") && !strings.HasPrefix(lines[k], "--- "); k++ {
+					l := lines[k]
+					if strings.HasPrefix(l, "-") || strings.HasPrefix(l, " ") {
+						oldLines = append(oldLines, l[1:])
+					}
+				}
+				matches := func(p int) bool {
+					if p < pos || p+len(oldLines) > len(src) {
+						return false
+					}
+					for k, ol := range oldLines {
+						if src[p+k] != ol {
+							return false
+						}
+					}
+					return true
+				}
+				if len(oldLines) > 0 && !matches(start) {
+					for d := 1; d <= 400; d++ {
+						if matches(start + d) {
+							start += d
+							break
+						}
+						if matches(start - d) {
+							start -= d
+							break
+						}
+					}
+				}
+			}
 			if start < pos || start > len(src) {
 				return nil, fmt.Errorf("hunk out of order in %s", newName)
 			}
